@@ -417,6 +417,14 @@ def h_durable_real(ctx):
         reg, own = store.getLocalRegistrationId(), store.getIdentityKeyPair().serialize()
         for c in fake.conns:
             c.close()
+        if ctx.flag("file_written_by_an_installation_that_stored_records_as_text"):
+            # what a Python 2 run of the library left behind: the same bytes, but typed TEXT in the file (str was the byte string type)
+            c = sqlite3.connect(path)
+            for table, cols in (("sessions", ("record",)), ("identities", ("public_key", "private_key")), ("prekeys", ("record",)), ("signed_prekeys", ("record",)), ("sender_keys", ("record",))):
+                for col in cols:
+                    c.execute("UPDATE %s SET %s = CAST(%s AS TEXT) WHERE %s IS NOT NULL" % (table, col, col, col))
+            c.commit()
+            c.close()
         s2, f2 = open_store(path, Boundary())
         obs = [("session read back", s2.containsSession(4915901234567, 1) and s2.loadSession(4915901234567, 1).serialize() == sess.serialize()),
                ("pinned identity read back", s2.isTrustedIdentity(4915901234567, ident.getPublicKey()) and not s2.isTrustedIdentity(4915901234567, KeyHelper.generateIdentityKeyPair().getPublicKey())),
